@@ -172,8 +172,9 @@ def families(tier, rng):
                 out.append((prod + cons, fl, inp[0]))
     #    ... and bodies that raise StopIteration for some item (moulding onto an empty list): inside a generator that is an
     #    error; handed to filter() / map() it reads as the end of the list and the run completes with the interrupted
-    #    lambda's entries left behind (genuine defect in vy_filter, repaired: fix 56ead27)
-    for op in ["λ3ɾ•;F", "λ3ɾ•;M", "'3ɾ•;", "ƛ3ɾ•;", "µ3ɾ•L;", "λ3ɾ•;$F", "λ3ɾ•;$M", "vλ3ɾ•;"]:
+    #    lambda's entries left behind (genuine defects in vy_filter and in the zipmap of vy_zip, repaired: fixes 56ead27, d314572)
+    for op in ["λ3ɾ•;F", "λ3ɾ•;M", "'3ɾ•;", "ƛ3ɾ•;", "µ3ɾ•L;", "λ3ɾ•;$F", "λ3ɾ•;$M", "vλ3ɾ•;", "λ3ɾ•;Z", "λ3ɾ•;ɖ", "λ3ɾ•;ṡ",
+               "λ3ɾ•;ƒ", "λ3ɾ•;R"]:
         for cons in ["", ",", "L,", "w,", "(n,)", "∑,", ":,,", "h,"]:
             for fl in ("", "W"):
                 out.append(("⟨⟨1|2⟩|⟨⟩|⟨3⟩⟩" + op + cons, fl, inp[0]))
